@@ -1,12 +1,13 @@
 package main
 
 import (
-	"os"
 	"fmt"
 	"go/ast"
 	"go/token"
 	"go/types"
+	"os"
 	"regexp"
+	"sort"
 	"strconv"
 	"strings"
 )
@@ -196,11 +197,42 @@ func boolDesc(b VBool) string {
 
 // g9Zero tabulates derive.Zero: "nil" only for kinds that have a nil value, after Underlying().
 func g9Zero(c *Ctx) {
-	fi := c.Repo.lookup("derive.Zero")
-	if fi == nil {
-		c.Rep.fail(Finding{Rule: "G9", Key: "G9|derive.Zero|missing", Kind: "undecided", Msg: "derive.Zero not found"})
+	// the functions of package derive that the plugins ask for a zero value (derive.Zero, derive.ZeroOf, ...): every
+	// package-level function of derive whose name starts with Zero and that a plugin calls
+	used := map[*types.Func]bool{}
+	for _, p := range c.Repo.Pkgs {
+		if !strings.Contains(p.PkgPath, "/plugin/") {
+			continue
+		}
+		for _, f := range p.Syntax {
+			ast.Inspect(f, func(n ast.Node) bool {
+				if call, ok := n.(*ast.CallExpr); ok {
+					if fn, ok := callee(p.TypesInfo, call).(*types.Func); ok && fn.Pkg() != nil && strings.HasSuffix(fn.Pkg().Path(), "/derive") &&
+						strings.HasPrefix(fn.Name(), "Zero") && fn.Type().(*types.Signature).Recv() == nil {
+						used[fn] = true
+					}
+				}
+				return true
+			})
+		}
+	}
+	var fis []*FuncInfo
+	for fn := range used {
+		if fi := c.Repo.Decls[fn]; fi != nil {
+			fis = append(fis, fi)
+		}
+	}
+	sort.Slice(fis, func(i, j int) bool { return fis[i].Fn.Name() < fis[j].Fn.Name() })
+	if len(fis) == 0 {
+		c.Rep.fail(Finding{Rule: "G9", Key: "G9|derive.Zero|missing", Kind: "undecided", Msg: "no zero-value function of package derive is called by a plugin (compose, fmap and join print zero values next to a returned error)"})
 		return
 	}
+	for _, fi := range fis {
+		g9ZeroFunc(c, fi)
+	}
+}
+
+func g9ZeroFunc(c *Ctx, fi *FuncInfo) {
 	or := &Oracle{}
 	nilable := map[string]bool{"*types.Pointer": true, "*types.Slice": true, "*types.Map": true, "*types.Chan": true, "*types.Signature": true, "*types.Interface": true}
 	for n := 0; n < 500; n++ {
@@ -216,7 +248,16 @@ func g9Zero(c *Ctx) {
 					msg = fmt.Sprint(e)
 				}
 			}()
-			res = in.callFunc(&VFunc{Decl: fi.Decl, Pkg: fi.Pkg}, []Value{arg}, token.NoPos)
+			args := []Value{arg}
+			// further parameters: the text of the type (a TYPE hole), anything else is not understood
+			sig := fi.Fn.Type().(*types.Signature)
+			for i := 1; i < sig.Params().Len(); i++ {
+				if b, ok := sig.Params().At(i).Type().(*types.Basic); !ok || b.Kind() != types.String {
+					panic("parameter " + sig.Params().At(i).Name() + " of " + fi.Fn.Name() + " is not a string")
+				}
+				args = append(args, hole("TYPE", "t"))
+			}
+			res = in.callFunc(&VFunc{Decl: fi.Decl, Pkg: fi.Pkg}, args, token.NoPos)
 		}()
 		if msg != "" {
 			c.Rep.fail(Finding{Rule: "G9", Key: "G9|derive.Zero|undecided", Kind: "undecided", Where: []string{c.Repo.pos(fi.Decl.Pos())}, Msg: "derive.Zero cannot be tabulated: " + msg})
